@@ -40,6 +40,8 @@ pub mod c13;
 pub mod c13b;
 #[cfg(feature = "c14")]
 pub mod c14;
+#[cfg(feature = "c14b")]
+pub mod c14b;
 #[cfg(feature = "c15")]
 pub mod c15;
 #[cfg(feature = "c16")]
@@ -353,6 +355,10 @@ pub fn run_request(req: &str) -> String {
     #[cfg(feature = "c14")]
     {
         ans = ans.or_else(|| c14::run_request(cmd, &args));
+    }
+    #[cfg(feature = "c14b")]
+    {
+        ans = ans.or_else(|| c14b::run_request(cmd, &args));
     }
     #[cfg(feature = "c15")]
     {
